@@ -21,7 +21,8 @@ ENTRY = dict(
          "(kind, variant, parrot, forced value); non-trivial when the forced value is unoffered or the handshake completed.",
     trusted_base=["verif_server.go scripted server (built from the library's own server sub-steps) and verif_c12.go view accessors",
                   "harness/hs ClientHello wire parser (offered sets)", "Go crypto/x509 against a throw-away CA",
-                  "cryptography, certificate validation, Finished and record protection abstracted into the flight's f_crypto_ok bit"],
+                  "cryptography, certificate validation, Finished and record protection abstracted into the flight's f_crypto_ok bit",
+                  "Model/Complete.v client_run10 + Model/KeyShare.v kshape (C10/C18): key selection of establishHandshakeKeys; the retained-key shape and the tree flag are read from the UConn by reflection"],
     assumes=["the client's view equals the offered sets on its wire hello (synced v w): checked for every client on every run, and PROVED from a "
              "model of writeToUConn/ApplyConfig and the marshal model (Props/C12.v C12_view_is_wire and the *_from_spec theorems, notes/Compose.md) "
              "modulo the premises listed there: typed_ext (no negotiation extension smuggled through GenericExtension/GREASE), psk_agree (the PSK "
